@@ -8,6 +8,7 @@ package main
 // C07: one fault per otherwise conformant exchange.
 
 import (
+	"bytes"
 	"encoding/hex"
 	"fmt"
 	"math/big"
@@ -243,6 +244,104 @@ func cornerCase(r *vc.Rng, id, field string, k int) Case {
 	return c
 }
 
+// derivedCase forces corners on quantities the code DERIVES from two inputs (the salt xor), on the extremes of the
+// drawn / chosen values, and on pq at the top of its range (products of two primes just below 2^32: 2^63 < pq < 2^64,
+// sent as 8 bytes with the high bit set).
+func setPQ(c *Case, p, q uint64) {
+	bp, bq := new(big.Int).SetUint64(p), new(big.Int).SetUint64(q)
+	if !bp.ProbablyPrime(20) || !bq.ProbablyPrime(20) || p >= q {
+		panic(fmt.Sprintf("setPQ: %d, %d are not primes p < q", p, q))
+	}
+	c.P, c.Q = hx(bp.Bytes()), hx(bq.Bytes())
+	c.PQ = hx(new(big.Int).Mul(bp, bq).Bytes())
+}
+
+func prevPrime(n uint64) uint64 {
+	for n--; !new(big.Int).SetUint64(n).ProbablyPrime(20); n-- {
+	}
+	return n
+}
+
+func nextPrime(n uint64) uint64 {
+	for n++; !new(big.Int).SetUint64(n).ProbablyPrime(20); n++ {
+	}
+	return n
+}
+
+func derivedCases(r *vc.Rng, id func() string) []Case {
+	var cs []Case
+	mk := func(corner, desc string, f func(c *Case)) {
+		bits := 18 + r.Intn(8)
+		c := baseCase(r.Fork(uint64(len(cs))*977+13), id(), "C06", baseOpts{pBits: bits, qBits: bits + 1})
+		c.Corner, c.Desc = corner, "conformant exchange, "+desc
+		f(&c)
+		fr := r.Fork(uint64(len(cs))*977 + 14)
+		finishCase(fr, &c)
+		cs = append(cs, c)
+	}
+	// salt = new_nonce[0:8] xor server_nonce[0:8] with k leading zero bytes: the first k bytes of the two nonces are EQUAL
+	for _, k := range []int{1, 2, 3, 7, 8} {
+		k := k
+		mk(fmt.Sprintf("salt_xor:%d", k), fmt.Sprintf("new_nonce[0:%d] == server_nonce[0:%d] (the salt xor has %d leading zero bytes)", k, k, k), func(c *Case) {
+			nn, sn := unhex(c.NewNonce), unhex(c.ServerNonce)
+			if nn[0] == 0 {
+				nn[0] = 0x31
+			}
+			copy(sn[:k], nn[:k])
+			if k < 8 && sn[k] == nn[k] {
+				sn[k] ^= 0x40
+			}
+			c.NewNonce, c.ServerNonce = hx(nn), hx(sn)
+		})
+	}
+	mk("salt_xor:tail", "new_nonce[7] == server_nonce[7] (the salt xor ends in a zero byte)", func(c *Case) {
+		nn, sn := unhex(c.NewNonce), unhex(c.ServerNonce)
+		sn[7] = nn[7]
+		c.NewNonce, c.ServerNonce = hx(nn), hx(sn)
+	})
+	mk("salt_xor:both_zero", "new_nonce and server_nonce both begin with a zero byte", func(c *Case) {
+		nn, sn := unhex(c.NewNonce), unhex(c.ServerNonce)
+		nn[0], sn[0] = 0, 0
+		c.NewNonce, c.ServerNonce = hx(nn), hx(sn)
+	})
+	// pq at the top of its range
+	mid := uint64(3037000500) // 2^31.5
+	p1 := prevPrime(mid)
+	p0 := prevPrime(p1)
+	p2 := nextPrime(mid)
+	p3 := nextPrime(p2)
+	top := prevPrime(1 << 32)
+	top2 := prevPrime(top)
+	for _, pr := range [][2]uint64{{3037000493, 3037000507}, {4294967279, 4294967291}, {p0, p1}, {p1, p2}, {p2, p3}, {top2, top},
+		{2, top}, {3, top}, {prevPrime(1 << 31), top}, {nextPrime(1 << 31), top}} {
+		pr := pr
+		pq := new(big.Int).Mul(new(big.Int).SetUint64(pr[0]), new(big.Int).SetUint64(pr[1]))
+		mk(fmt.Sprintf("pq:%dx%d", pr[0], pr[1]), fmt.Sprintf("pq = %d x %d (%d bits, first byte %02x)", pr[0], pr[1], pq.BitLen(), pq.Bytes()[0]), func(c *Case) {
+			setPQ(c, pr[0], pr[1])
+		})
+	}
+	// extremes of the drawn and chosen values
+	zero := func(n int) string { return hx(make([]byte, n)) }
+	ff := func(n int) string { return hx(bytes.Repeat([]byte{0xff}, n)) }
+	mk("draw:nonce=0", "nonce = 0 (16 zero bytes drawn)", func(c *Case) { c.Nonce = zero(16) })
+	mk("draw:nonce=ff", "nonce = 2^128-1", func(c *Case) { c.Nonce = ff(16) })
+	mk("draw:new_nonce=0", "new_nonce = 0 (32 zero bytes drawn)", func(c *Case) { c.NewNonce = zero(32) })
+	mk("draw:new_nonce=ff", "new_nonce = 2^256-1", func(c *Case) { c.NewNonce = ff(32) })
+	mk("draw:server_nonce=0", "server_nonce = 0", func(c *Case) { c.ServerNonce = zero(16) })
+	mk("draw:server_nonce=ff", "server_nonce = 2^128-1", func(c *Case) { c.ServerNonce = ff(16) })
+	mk("draw:nonces_equal", "server_nonce equals the client's nonce", func(c *Case) { c.ServerNonce = c.Nonce })
+	mk("draw:b=1", "client exponent b = 1 (g_b = g)", func(c *Case) { c.B = hx(hsserver.Fixed(big.NewInt(1), 256)) })
+	mk("draw:b=max", "client exponent b = 2^2048-1", func(c *Case) { c.B = ff(256) })
+	mk("g_a:min", "g = 2, a = 1: g_a = 2, the smallest value the range check 1 < g_a < dh_prime-1 admits", func(c *Case) {
+		c.G, c.A, c.GAWidth = 2, "01", 0
+	})
+	mk("fingerprints:top_bit", "foreign fingerprints with the sign bit set before the real one", func(c *Case) {
+		c.ExtraFps = []uint64{0xffffffffffffffff, 0x8000000000000000, 0x8000000000000001}
+		c.FpIndex = 3
+	})
+	return cs
+}
+
 var cornerFields = []string{"nonce", "server_nonce", "new_nonce", "new_nonce_hash1", "rsa", "g_a", "g_b", "g^ab"}
 
 func genC06(tier string) []Case {
@@ -261,6 +360,7 @@ func genC06(tier string) []Case {
 			}
 		}
 	}
+	cs = append(cs, derivedCases(r.Fork(4242), id)...)
 	nrand := 30
 	if tier == "thorough" {
 		nrand = 600
@@ -269,7 +369,9 @@ func genC06(tier string) []Case {
 		o := baseOpts{pBits: 12 + r.Intn(14), qBits: 12 + r.Intn(14)}
 		switch {
 		case i%10 == 0:
-			o = baseOpts{pBits: 31, qBits: 32} // full-size pq: 63 bits
+			o = baseOpts{pBits: 31, qBits: 32} // pq of 63 bits
+		case i%10 == 5:
+			o = baseOpts{pBits: 32, qBits: 32} // pq of 63..64 bits
 		case i%10 == 1:
 			o = baseOpts{pBits: 2 + r.Intn(6), qBits: 3 + r.Intn(6)}
 		}
